@@ -37,6 +37,8 @@ def gen_case(rng, seed, idx):
         auto=bool(rng.random() < 0.4),
         closed=str(rng.choice(["left", "right"])),
         weights=str(rng.choice(["none", "first", "second", "both"])),
+        wscale=float(rng.choice([1.0, 1.0, 1.0, 1e-12, 1e-9, 1e9])),
+        duplicates=bool(rng.random() < 0.15),
         randoms=str(rng.choice(["unk", "ref", "both"])),
         count_rr=bool(rng.random() < 0.6),
         cosmology=str(rng.choice(["Planck15", "WMAP9"])),
@@ -163,7 +165,7 @@ class C01(Check):
         "reference vs sparse-wide unknown/randoms, patches of uneven extent, centre on the pole, field across RA=0, "
         "antipodal groups, single patch} x redshift {zmin 0.002..0.05, 0.1..1, 1.5..5, empty bins, one bin, a patch "
         "outside the binning; edge-valued redshifts; left/right closed} x scales {one, overlapping, >=4 distinct edges, "
-        "separation weighting rweight/resolution} x all 8 units x weights {none, first, second, both} x randoms x "
+        "separation weighting rweight/resolution} x all 8 units x weights {none, first, second, both; magnitudes 1e-12..1e9; exact duplicate positions} x randoms x "
         "auto/cross x count_rr; 20..400 objects per catalog on shared centres. Every cell of dd/dr/rd/rr counts and of "
         "sum_weights1/2 is compared with the brute-force oracle on the records read back from the caches. "
         "non-trivial = every scale has >= 1 certain pair; distinct = case parameters + seed"
@@ -182,6 +184,17 @@ class C01(Check):
     def cases(self, tier, seed):
         n = 144 if tier == "quick" else 4000
         rng = np.random.default_rng([seed, 1])
+        # stratum where the conversion scale -> angle decides the pruning: physical/comoving units at
+        # very low and very high redshift on geometries with well separated or uneven patches
+        k = 0
+        for rep in range(1 if tier == "quick" else 12):
+            for geom in ("clusters_far", "uneven_extent", "dense_vs_sparse"):
+                for zcls in ("lowz", "highz"):
+                    for unit in ("kpc", "Mpc", "Mpc/h"):
+                        k += 1
+                        c = gen_case(rng, seed * 7919 + 50000 + k, 0)
+                        c.update(geom=geom, zcls=zcls, unit=unit, scls="one" if k % 2 else "overlap", wscale=1.0, duplicates=False)
+                        yield c
         for i in range(n):
             yield gen_case(rng, seed * 100003 + i, i)
 
@@ -208,6 +221,8 @@ class C01(Check):
                                    edges=edges.tolist(), closed=case["closed"], cosmology=case["cosmology"])
         centre_obj = cats.coords_obj(centres)
 
+        shared = dict(xyz=None)
+
         def make(tmp, name, kind, with_z, with_w):
             n_each = rng.integers(max(2, 20 // P), max(3, 400 // P) // (3 if kind == "ref" else 1) + 2, P)
             xyz, _ = cats.points_around(rng, centres, n_each, world["radius"][kind] if world["radius"] else np.deg2rad(0.5))
@@ -216,8 +231,19 @@ class C01(Check):
             xyz /= np.linalg.norm(xyz, axis=1)[:, None]
             ra, dec = gen.xyz_to_radec(xyz)
             pid, _ = cats.nearest_centre(xyz, centres)
+            if case.get("duplicates") and len(xyz) > 4:
+                # exact duplicates (separation 0, never inside (theta_min, theta_max]) and points shared with
+                # the previous catalog
+                k = len(xyz) // 5
+                xyz[:k] = xyz[k:2 * k]
+                if shared["xyz"] is not None:
+                    m = min(k, len(shared["xyz"]))
+                    xyz[2 * k:2 * k + m] = shared["xyz"][:m]
+                shared["xyz"] = xyz.copy()
+                ra, dec = gen.xyz_to_radec(xyz)
+                pid, _ = cats.nearest_centre(xyz, centres)
             z = draw_redshifts(case, rng, edges, len(ra), pid) if with_z else None
-            w = rng.uniform(0.5, 3.0, len(ra)) if with_w else None
+            w = rng.uniform(0.5, 3.0, len(ra)) * case.get("wscale", 1.0) if with_w else None
             return cats.create(tmp / name, cats.table(ra, dec, w=w, z=z), centers=centre_obj)
 
         wsel = case["weights"]
@@ -273,6 +299,8 @@ class C01(Check):
                 counters["pairs_in_oracle"] += int(npairs.sum())
                 if kind == "dd" and np.any(npairs.sum(axis=1) == 0):
                     every_scale_has_pairs = False
+                wtot = float(np.abs(np.ones(len(r1["ra"])) if r1["w"] is None else r1["w"]).sum()
+                             * np.abs(np.ones(len(r2["ra"])) if r2["w"] is None else r2["w"]).sum())
                 # sum of weights
                 sw1 = pairs.sum_weights(r1, P, edges, case["closed"], True)
                 sw2 = pairs.sum_weights(r2, P, edges, case["closed"], binned2)
@@ -297,7 +325,9 @@ class C01(Check):
                                 consts[(kind, b)] = tot_code / tot_or
                         cvec = np.array([consts.get((kind, b), 0.0) for b in range(nb)])[:, None, None]
                         lo_s, up_s = lo_s * cvec, up_s * cvec
-                    tol = 1e-9 * np.maximum(1.0, np.abs(up_s))
+                    # counts are differences of cumulative sums bounded by (total weight 1) x (total weight 2):
+                    # rounding residues live on that scale, also in cells whose exact value is 0
+                    tol = 1e-9 * np.abs(up_s) + 1e-12 * wtot * (float(cvec.max()) if rweight is not None else 1.0)
                     lost = arr < lo_s - tol
                     extra = arr > up_s + tol
                     counters["cells_compared"] += int(arr.size)
@@ -322,7 +352,7 @@ class C01(Check):
                     got1, got2 = nc.sum_weights.sum_weights1, nc.sum_weights.sum_weights2
                     counters["sum_weight_cells_compared"] += int(got1.size + got2.size)
                     for nm, got, want in (("sum_weights1", got1, sw1), ("sum_weights2", got2, sw2)):
-                        if got.shape != want.shape or np.any(np.abs(got - want) > 1e-12 * np.maximum(1.0, np.abs(want))):
+                        if got.shape != want.shape or np.any(np.abs(got - want) > 1e-12 * np.maximum(np.abs(want), 1e-6 * max(float(np.abs(want).max()), 1e-300))):
                             bad(f"{nm}:wrong", dict(kind=kind, scale=s, got=np.asarray(got).tolist(), want=want.tolist()))
                             break
             if rweight is not None and consts:
